@@ -161,6 +161,35 @@ def _event_case(rng, name, o, d, z, extra_req, call_fn, descr, fmt=tinst):
                 live={"observer": o, "result": (st, v)})
 
 
+def gap_zone(rng, f, d):
+    """(zone, date) such that the events of the UTC dates d and d+1 (f(date) -> aware UTC datetime)
+    fall on either side of the requested local date: successive events step across local
+    midnight, so the date holds no event at all (or two, when they get earlier) — the
+    double-miss branch of the date re-matching.  Second-resolution fixed offset."""
+    try:
+        t0, t1 = f(d), f(d + datetime.timedelta(days=1))
+    except (ValueError, OverflowError):
+        return None
+    drift = (t1 - t0).total_seconds() - 86400.0
+    if abs(drift) < 2.0 or abs(drift) > 1800.0:
+        return None
+    a = rng.uniform(0.15, 0.85) * abs(drift)
+    tod = t0.hour * 3600 + t0.minute * 60 + t0.second + t0.microsecond / 1e6
+    if drift > 0:
+        off = (-tod - a) % 86400.0        # t0 reads 24:00 − a, t1 reads 00:00 + (drift − a) two days on
+    else:
+        off = (-tod + a) % 86400.0        # t0 reads 00:00 + a, t1 reads 24:00 − (|drift| − a) that same day
+    if off > 50400:
+        off -= 86400
+    off = int(off)
+    if not -43200 <= off <= 50400:
+        return None
+    z = zones.fixed_seconds(off)
+    local0 = (t0 + datetime.timedelta(seconds=off)).replace(tzinfo=None)
+    want = local0.date() + datetime.timedelta(days=1) if drift > 0 else local0.date()
+    return z, want
+
+
 def gen_events(rng, n, tier="quick"):
     """dawn sunrise sunset dusk time_at_elevation noon midnight"""
     prev = None
@@ -202,13 +231,25 @@ def gen_events(rng, n, tier="quick"):
             st0, t0 = call(base)
             if st0 == "ok":
                 z = zones.midnight_zone(rng, t0)
+        dep = gens.rand_depression(rng)
+        if k < 4 and rng.random() < 0.08 and not isinstance(o.elevation, tuple):
+            # a date that holds no such event in the zone (events step across local midnight)
+            from astral import Observer as _O2
+            o2 = _O2(rng.uniform(35.0, 64.0) * rng.choice([1, -1]), o.longitude, o.elevation) \
+                if rng.random() < 0.7 else o
+            fdep = float(dep) if isinstance(dep, (int, float)) else 6.0
+            fz = {0: lambda dd: sun.dawn(o2, dd, fdep), 1: lambda dd: sun.dusk(o2, dd, fdep),
+                  2: lambda dd: sun.sunrise(o2, dd), 3: lambda dd: sun.sunset(o2, dd)}[k]
+            g = gap_zone(rng, fz, d)
+            if g is not None:
+                o, (z, d) = o2, g
+                if k < 2:
+                    dep = fdep
         tz = z.tzinfo
         if k == 0:
-            dep = gens.rand_depression(rng)
             yield _event_case(rng, "dawn", o, d, z, " " + F(dep),
                               lambda: sun.dawn(o, d, dep, tz), {"depression": dep})
         elif k == 1:
-            dep = gens.rand_depression(rng)
             yield _event_case(rng, "dusk", o, d, z, " " + F(dep),
                               lambda: sun.dusk(o, d, dep, tz), {"depression": dep})
         elif k == 2:
@@ -255,6 +296,11 @@ def gen_periods(rng, n, tier="quick"):
                                        lambda: sun.sunrise(o, d), lambda: sun.sunset(o, d)]))
             if st0 == "ok":
                 z = zones.midnight_zone(rng, t0)
+        if rng.random() < 0.08 and not isinstance(o.elevation, tuple):
+            g = gap_zone(rng, rng.choice([lambda dd: sun.dusk(o, dd), lambda dd: sun.dawn(o, dd),
+                                          lambda dd: sun.sunset(o, dd), lambda dd: sun.sunrise(o, dd)]), d)
+            if g is not None:
+                z, d = g
         tz = z.tzinfo
         k = i % 6
         di = rng.choice([RISING, SETTING])
